@@ -85,12 +85,120 @@ class ProxyReactor(object):
         return getattr(self._real, name)
 
 
+def _produce_request_parts(request):
+    """[(topic, partition)] of an encoded Produce request (v0-v2), in wire order; api version"""
+    import struct
+
+    ver = struct.unpack(">h", request[2:4])[0]
+    i = 8
+    (n,) = struct.unpack(">h", request[i:i + 2])
+    i += 2 + max(n, 0) + 2 + 4  # client id, acks, timeout
+    (nt,) = struct.unpack(">i", request[i:i + 4])
+    i += 4
+    out = []
+    for _ in range(nt):
+        (n,) = struct.unpack(">h", request[i:i + 2])
+        topic = request[i + 2:i + 2 + n].decode()
+        i += 2 + n
+        (np_,) = struct.unpack(">i", request[i:i + 4])
+        i += 4
+        for _ in range(np_):
+            part, size = struct.unpack(">ii", request[i:i + 8])
+            i += 8 + size
+            out.append((topic, part))
+    return ver, out
+
+
+class ClientCall(object):
+    """one `send_produce_request` of the REAL client, as seen from both of its sides: the payloads and the result at
+    the Producer's boundary; below it the leaders its cache named when it routed, the broker requests it issued
+    (node id, partitions on the wire) and what each came to.  Input of the composed model's `sendProduce`
+    (`Afkak/ProducerCompose.lean`, driver request `compose-call`)."""
+
+    def __init__(self, rid, payloads, loads):
+        self.rid = rid
+        self.keys = [(D.topic_index(p.topic), p.partition) for p in payloads]
+        self.loads_at_start = loads
+        self.leaders = None  # aligned with keys: node id | None (no leader) | "x" (key absent)
+        self.reqs = []  # {"node", "parts", "out"}  out: ("ok", [[t, p, err, off]]) | ("fail", kind) | None (pending)
+        self.reloaded = False  # a metadata load ran between the call and its first broker request
+        self.result = None  # tokens of the result handed to the Producer
+        self.odd = None  # why this call cannot be compared
+
+
 class ProxyClient(object):
     def __init__(self, tracer, real):
         self._tracer, self._real = tracer, real
         self.reactor = ProxyReactor(tracer, real.reactor)
         self.next_rid = 0
         self.pending = {}  # rid -> ("meta"|"produce", args)
+        self.calls = []  # ClientCall, in call order
+        self.loads = 0
+        self._wrap_real()
+
+    # ---- the client's lower side: its broker requests for Produce, its metadata loads
+    def _leaders(self, call):
+        from afkak.common import TopicAndPartition
+
+        out = []
+        for t, p in call.keys:
+            b = self._real.topics_to_brokers.get(TopicAndPartition(D.topic_name(t), p), "x")
+            out.append(b if b in ("x", None) else b.node_id)
+        return out
+
+    def _open_call(self):
+        opened = [c for c in self.calls if c.result is None]
+        if len(opened) > 1:
+            for c in opened:
+                c.odd = "two produce calls were open at once"
+        return opened[-1] if opened else None
+
+    def _wrap_real(self):
+        real = self._real
+        orig_mrtb = real._make_request_to_broker
+        orig_load = real.load_metadata_for_topics
+
+        def load(*a, **k):
+            self.loads += 1
+            return orig_load(*a, **k)
+
+        def mrtb(broker, requestId, request, *a, **k):
+            d = orig_mrtb(broker, requestId, request, *a, **k)
+            try:
+                if bytes(request[:2]) == b"\x00\x00":
+                    call = self._open_call()
+                    if call is not None:
+                        if not call.reqs:
+                            call.leaders = self._leaders(call)
+                            call.reloaded = self.loads != call.loads_at_start
+                        ver, parts = _produce_request_parts(bytes(request))
+                        entry = {"node": broker.node_id, "parts": [(D.topic_index(t), p) for t, p in parts], "out": None}
+                        call.reqs.append(entry)
+
+                        def done(res, entry=entry, ver=ver, call=call):
+                            try:
+                                if isinstance(res, Failure):
+                                    entry["out"] = ("fail", kind_of(res.value))
+                                elif not res:
+                                    entry["out"] = ("ok", [])
+                                else:
+                                    from afkak.kafkacodec import KafkaCodec
+
+                                    entry["out"] = ("ok", [[D.topic_index(r.topic), r.partition, r.error, r.offset]
+                                                           for r in KafkaCodec.decode_produce_response(res, api_version=ver)])
+                            except Unmodelled as e:
+                                call.odd = str(e)
+                            except Exception as e:  # noqa: BLE001
+                                call.odd = "outcome not decoded: %r" % (e,)
+                            return res
+
+                        d.addBoth(done)
+            except Exception as e:  # noqa: BLE001  (never disturb the client)
+                self._tracer.stats["compose:recorder-error"] += 1
+            return d
+
+        real._make_request_to_broker = mrtb
+        real.load_metadata_for_topics = load
 
     @property
     def topic_partitions(self):
@@ -137,11 +245,26 @@ class ProxyClient(object):
 
     def send_produce_request(self, payloads=None, acks=1, timeout=1000, fail_on_error=True, callback=None):
         payloads = list(payloads)
+        self.calls.append(ClientCall(None, payloads, self.loads))
         d = self._real.send_produce_request(payloads=payloads, acks=acks, timeout=timeout,
                                             fail_on_error=fail_on_error, callback=callback)
         tr = self._tracer
         mark = len(tr.log)
         rid, d = self._watch("produce", payloads, d)
+        call = self.calls[-1]
+        call.rid = rid
+        if d.called and call.leaders is None:
+            call.leaders = self._leaders(call)
+        try:  # coverage only: how many brokers lead the payloads of this request, as the client's cache has it
+            from afkak.common import TopicAndPartition
+
+            leaders = set(getattr(self._real.topics_to_brokers.get(TopicAndPartition(pl.topic, pl.partition)), "node_id", None)
+                          for pl in payloads)
+            if len(leaders) >= 2:
+                tr.stats["multibroker-request"] += 1
+                tr.multibroker.add(rid)
+        except Exception:  # noqa: BLE001
+            pass
         tr.log.insert(mark, ("produce", rid, payloads, acks, timeout, fail_on_error))
         if d.called and not isinstance(getattr(d, "result", None), defer.Deferred) and not d.callbacks:
             # answered before it is returned (acks=0: nothing to wait for).  The Producer will handle the answer
@@ -187,6 +310,13 @@ class Tracer(D.RealRun):
         self.sent_payloads = []
         self.success_never_sent = None
         self.moved = {}  # step index -> sid whose own firing is observed last (see producer_drive.diff)
+        self._override = self._cur_sid = self._cur_line = None  # (RealRun's split of synchronous answers: not used here)
+        self.flat_lines = {}
+        self.sync_count = 0
+        import collections
+
+        self.stats = collections.Counter()  # coverage counters for the evidence histogram
+        self.multibroker = set()  # rids of produce requests whose payloads are led by >= 2 brokers
         self.model_meta = {}  # topic -> (err, parts|None) as the model's cache has it; absent = unknown
         self.pending_line = None
         self.pending_sid = None
@@ -315,6 +445,17 @@ class Tracer(D.RealRun):
         except Unmodelled as e:
             self.skip(str(e))
             toks = ["ok"] if kind == "meta" else ["none"]
+        if kind == "produce":
+            for call in self.client.calls:
+                if call.rid == rid and call.result is None:
+                    call.result = toks
+                    if call.leaders is None:
+                        call.leaders = self.client._leaders(call)
+        if kind == "produce" and rid in self.multibroker and toks[0] == "fail":
+            self.stats["multibroker-request-failed-" + ("partly" if len(toks[2]) < len(args) else "wholly")] += 1
+            first = (D.topic_index(args[0].topic), args[0].partition)
+            if toks[1] and first in [(f[0], f[1]) for f in toks[2]]:
+                self.stats["multibroker-request-first-broker-failed-others-answered"] += 1
         if self.in_stop:
             self.stop_outs[rid] = (kind, toks)
             return result
